@@ -1978,6 +1978,16 @@ pub async fn scenario(a: &ShardArgs, check: &'static str, profile: &'static str,
             J::Null,
         );
     }
+    // H6: structural audit of the event buffer, run inside the database at every release of its lock
+    for f in crate::verif::probe::take_audit_failures() {
+        w.viol(
+            if profile == "c13" { "C13" } else { "C03" },
+            &format!("audit.{}", f.rule),
+            f.site,
+            format!("event buffer audit at {}: {}: {}", f.site, f.rule, f.detail),
+            J::Null,
+        );
+    }
     if w.sim.task_finished() {
         w.viol(
             if profile == "c13" { "C13" } else { "C03" },
